@@ -134,3 +134,11 @@ PROPS["C13"] = {
     "assumptions": TB + ["the application follows the protocol phases (waits for each reply before the next phase); eager pipelining across phases is not demanded", "an IPv6 host is compared modulo its brackets and textual form"],
     "plan": [{"name": "local-handshake", "check": "c13"}],
 }
+
+PROPS["C08"] = {
+    "level": "fault_enumeration",
+    "rule": "real client and server nodes (descriptor limit 160) behind a TCP forwarder and, for Shadowsocks UDP, a datagram man-in-the-middle; the fault catalogue (36 faults: connect-and-close, silent / garbage / TLS-hello / WebSocket-upgrade peers HELD OPEN during the canary, resets, connection flood, descriptor exhaustion of server and client, garbage and half-open QUIC connections, undecodable / replayed / path-duplicated datagrams in both directions, unresolvable and refused targets over TCP and UDP, application and target resets, stalled and garbage local handshakes, malformed local datagrams, client-server link cut or reset mid-flow, link down or stalled while flows start or a datagram binding is created, server restart) is applied one fault after another in a seed-chosen order on one long-lived pair per configuration, so every prefix is a fault SEQUENCE; after EACH fault: a fresh TCP flow (positional-stream oracle) and a fresh UDP exchange from a new application socket must succeed, both processes must be alive and must still hold every listening / bound socket of the baseline (/proc/<pid>/fd joined with /proc/net); a failing canary is believed only if it reproduces twice on fresh pairs with that fault alone (else once with the whole history); quick = 8 configurations (every protocol and transport), one pass; thorough = all 50 protocol x transport configurations, three shuffled passes; evaluations = faults applied; distinct = distinct (configuration, history length, fault)",
+    "exhaustive_note": "every applicable catalogue fault is applied in every configuration of the tier (single faults enumerated completely); sequences are the prefixes of seed-chosen permutations, i.e. samples",
+    "assumptions": E2E_TB + ["'well-behaved other user' = a fresh TCP connection / a fresh UDP application socket; the same application's later traffic is not judged here", "canaries get 3 attempts of 10 s (TCP) / 2.5 s per datagram (UDP); typical latencies are recorded in the monitors"],
+    "plan": [{"name": "faults", "check": "c08", "bin": "osv-e2e", "timeout": {"quick": 1200, "thorough": 5400}}],
+}
